@@ -1,4 +1,5 @@
 import MiniVecProof.Proofs.MemMove
+import MiniVecProof.Proofs.MemRetain
 /-
   C01 — operation sequences behave exactly like std `Vec` (PARTIAL: proved for the operations in
   `POp`; the remaining operations of the property are tied to the code and to `Vec` by the
@@ -28,7 +29,7 @@ inductive POp
   | insert (i : Nat) (e : Elem)
   | remove (i : Nat)
   | swap_remove (i : Nat)
-  deriving Repr
+  | retain (f : Vec.Pred1)      -- ANY predicate of (call number, element)
 
 /-- `Vec` semantics on plain lists: new contents and the returned value -/
 def POp.spec : POp → List Elem → List Elem × Option Elem
@@ -40,6 +41,7 @@ def POp.spec : POp → List Elem → List Elem × Option Elem
   | .insert i e, es => (es.take i ++ [e] ++ es.drop i, none)
   | .remove i, es => (es.eraseIdx i, es[i]?)
   | .swap_remove i, es => ((match es.getLast? with | some l => (es.set i l).take (es.length - 1) | none => es), es[i]?)
+  | .retain f, es => (keptFrom f 0 es, none)
 
 /-- the model (hand-written pointer code on top of the regenerated decision programs) -/
 def POp.run (X : Ctx) : POp → VM (Option Elem)
@@ -54,6 +56,7 @@ def POp.run (X : Ctx) : POp → VM (Option Elem)
   | .insert i e => do Vec.insert X i e; pure none
   | .remove i => do let x ← Vec.remove X i; pure (some x)
   | .swap_remove i => do let x ← Vec.swap_remove X i; pure (some x)
+  | .retain f => do Vec.retain X f; pure none
 
 /-- one operation refines its specification, or stops benignly leaving the handle as it was -/
 theorem capMem_refines (X : Ctx) (s : St) (es : List Elem) (x : VM Unit) (habs0 : Abs X s.v es)
@@ -129,6 +132,9 @@ theorem POp.refines (X : Ctx) (hq : ∀ k, X.o.panicAt k = false) (op : POp) (s 
     · simp only [POp.run, VM.bind_run, hrun, POp.spec, VM.pure_run]
       simp [List.getElem?_eq_getElem hi]
     · simp only [POp.spec, hl]; exact habs
+  | retain f =>
+    obtain ⟨s', rej, hrun, habs, _⟩ := retain_spec X hq f s es h
+    exact .inl ⟨s', by simp only [POp.run, VM.bind_run, hrun]; rfl, habs⟩
 
 /-- run a sequence; stop at the first operation that does not return -/
 def runOps (X : Ctx) : List POp → St → List (Option Elem) → (Except Panic (List (Option Elem))) × St
